@@ -533,3 +533,9 @@ func reflectKind(t types.Type) int {
 
 var _ = fmt.Sprint
 var _ = smt.True
+
+func init() {
+	// registry.findSecrets is reflection over the plugin's request/response types (property C17, not claimed);
+	// the model plugin's types have no secret-looking field names, so the real function returns nil as well.
+	reg(RepoModule+"/plugins/registry.findSecrets", pure(func(it *Interp, a []Value) Value { return Iface{} }))
+}
